@@ -159,3 +159,18 @@ impl CastleRights {
         self.0 &= rights;
     }
 }
+
+#[cfg(rustyyato_chess_verif)]
+impl CastleRights {
+    /// verification hook: rights from their 4-bit representation (no validation)
+    #[inline]
+    pub const fn verif_from_bits(bits: u8) -> Self {
+        Self(bits)
+    }
+
+    /// verification hook: the raw 4-bit representation
+    #[inline]
+    pub const fn verif_bits(self) -> u8 {
+        self.0
+    }
+}
